@@ -356,14 +356,17 @@ func report(r *Runner, prop, tier, evidence, known string, noReplay bool, loadT,
 		perH = append(perH, map[string]interface{}{"harness": name, "paths": st.Paths, "completed": st.Completed, "killed_by_assume": st.Killed,
 			"inconclusive": st.Aborted, "decisions": st.Decisions, "solver_queries": st.Queries, "ssa_instructions": st.Instrs, "reach": st.Reached, "wall_s": st.Wall.Seconds()})
 	}
-	var sat, unsat, unknown int
-	var solveT time.Duration
+	var sat, unsat, unknown, fbTried, fbDecided int
+	var solveT, fbTime time.Duration
 	for _, e := range r.execs {
 		if e != nil && e.solver != nil {
 			sat += e.solver.nSat
 			unsat += e.solver.nUnsat
 			unknown += e.solver.nUnknown
 			solveT += e.solver.solveTime
+			fbTried += e.fallbackTried
+			fbDecided += e.fallbackDecided
+			fbTime += e.fallbackTime
 			for k := range e.nativesSeen {
 				natives[k] = true
 			}
@@ -410,7 +413,8 @@ func report(r *Runner, prop, tier, evidence, known string, noReplay bool, loadT,
 			"rule":                          "states = feasible symbolic paths executed to completion (each covers every value of its symbolic variables satisfying the path condition); transitions = solver-decided branch/case-split decisions; evaluations = SMT queries discharged; distinct_nontrivial = completed paths with a non-empty path condition; traces_validated = path models re-run natively (go test -overlay) with identical outcome and observations",
 			"exhaustive":                    len(inconclusive) == 0,
 			"paths_started":                 paths,
-			"solver":                        map[string]interface{}{"name": w.solverKind, "sat": sat, "unsat": unsat, "unknown": unknown, "time_s": solveT.Seconds(), "per_query_timeout_ms": w.timeoutMs},
+			"solver":                        map[string]interface{}{"name": w.solverKind, "sat": sat, "unsat": unsat, "unknown": unknown, "time_s": solveT.Seconds(), "per_query_timeout_ms": w.timeoutMs,
+				"fallback_one_shot": map[string]interface{}{"solvers": "cvc5 1.0, z3 5.1.0", "queries_tried": fbTried, "decided": fbDecided, "time_s": fbTime.Seconds(), "timeout_ms": w.fallbackMs}},
 			"ssa_instructions_executed":     instrs,
 			"functions_encoded_repo":        repoFuncs,
 			"functions_encoded_lib_count":   len(libFuncs),
